@@ -6,7 +6,7 @@ use serde_json::{json, Value};
 use std::collections::BTreeMap;
 
 const NAMES: [&str; 11] = ["a", "b", "c", "p::x", "p::y", "nope", "p", "px", "p_q::x", "p:", "pp::x"];
-const VALS: [&str; 4] = ["1", "two", "x y", "false"];
+const VALS: [&str; 6] = ["1", "two", "x y", "false", "", " "];
 
 pub fn gen(r: &mut Rng) -> Value {
     let n = 2 + r.below(10);
